@@ -22,6 +22,13 @@ def F(rule, fi, construct, msg, node=None):
 
 
 def run(prog, tier):
+    _R = _run(prog, tier)
+    from ._shared import check_iterator_reuse
+    check_iterator_reuse(_R, prog, P, ['cnfgen.formula'], 50)
+    return _R
+
+
+def _run(prog, tier):
     R = Result(P, "THRESHOLD-SPEC: (operator, threshold) extracted from each of the 8 named builders of CNFLinear and BaseOPB, "
                "strict operators folded, compared exactly (window n=0..63, value=-3..8; sufficient for quasi-linear forms with "
                "divisor 2) with the specification fixed by the builder's name.  THRESHOLD-SIBLING: CNF vs OPB directly.  "
@@ -942,6 +949,7 @@ def semantic_add_linear(prog):
     """fold CNFLinear.add_linear (with its recursive reductions) for every operator, 0..3 literals of mixed sign and every constant in
     -1..n+1, and compare the clause set with the constraint by truth table.  -> (True | False | None, detail)"""
     import itertools
+    import types
     from ..fold import Folder, Raised
     ci = prog.cls(LIN, "CNFLinear")
     fi = ci.methods["add_linear"]
@@ -962,6 +970,21 @@ def semantic_add_linear(prog):
                     except Raised as e:
                         return False, "add_linear(%s, %r, %d) raises %s" % (lits, op, c, e.cls)
                     clauses = [list(a[0]) for name, a, kw in f.effects if a]
+                    if n >= 2 and signs == tuple([1] * n):
+                        # the literals may come as a generator (documented): same clauses as for the list
+                        for chk in (False, True):
+                            f2 = Folder(env={}, sinks=("add_clause",), methods=methods)
+                            f2.globals = {"_check_and_update": lambda *a, **k: None}
+                            try:
+                                f2.call_function(fi.node, [types.SimpleNamespace(_numvar=0, _clauses=[]), (l for l in lits), op, c], {"check": chk})
+                            except Unknown as e:
+                                break
+                            except Raised as e:
+                                return False, "add_linear(<generator of %s>, %r, %d, check=%s) raises %s" % (lits, op, c, chk, e.cls)
+                            c2 = [list(a[0]) for name, a, kw in f2.effects if a]
+                            if sorted(map(sorted, c2)) != sorted(map(sorted, clauses)):
+                                return False, ("add_linear(<generator of %s>, %r, %d, check=%s) adds %s, but %s for the same literals as a list: the "
+                                               "generator is used up before the last reduction step" % (lits, op, c, chk, c2, clauses))
                     for bits in itertools.product([False, True], repeat=n):
                         asg = {i + 1: b for i, b in enumerate(bits)}
                         tot = sum(1 for l in lits if (l > 0) == asg[abs(l)])
